@@ -251,18 +251,25 @@ def run_batch(chk, name, harness, model, cases, shards=16):
         return 0, ["%s: harness printed %d lines for %d cases (%s)" % (name, len(impl), len(cases), (err or "")[-300:])]
     errors = []
     good_cases, good_impl = [], []
+    nerr = 0
     for c, a in zip(cases, impl):
         if a.startswith("ERR"):
+            nerr += 1
+            if nerr > 2:
+                continue
             # run it again alone: reproducible -> a failing input, else a harness problem
             again, _, _ = vf.run_lines([harness], [c], timeout=120)
             if again and again[0] == a and ("signal" in a or "stepbound" in a):
-                chk.violation("%s: the run fails reproducibly (%s)" % (name, a),
+                chk.violation("%s: the run fails reproducibly (%s)%s" % (name, a,
+                              ": the schedule does not terminate within the step bound" if "stepbound" in a else ""),
                               {"kind": "crash", "obligation": name, "case": c, "impl": a}, found_input=True)
             else:
                 errors.append("%s: %s on case %s" % (name, a, c))
         else:
             good_cases.append(c)
             good_impl.append(a)
+    if nerr:
+        chk.cov.setdefault("harness_err_lines", {})[name] = nerr
     minput = [model_input(c, a) for c, a in zip(good_cases, good_impl)]
     mod, rc2, err2 = vf.run_lines([model, "run"], minput, shards=8, timeout=900)
     nbad = diff_batch(chk, name, good_cases, good_impl, mod)
@@ -380,6 +387,7 @@ def main():
                               {"kind": "monitor", "case": c, "impl": a}, found_input=True)
                 break
 
+    chk.violations.sort(key=lambda v: not v[2])      # failing inputs first
     if errors:
         for e in errors[:5]:
             print("HARNESS-ERROR: " + e[:600])
